@@ -3,6 +3,7 @@
 mod c01;
 mod c02;
 mod c03;
+mod c04;
 mod ctx;
 mod docs;
 mod obs;
@@ -25,6 +26,7 @@ fn registry(id: &str) -> Option<Box<dyn Check>> {
         "C01" => Some(Box::new(c01::C01::new())),
         "C02" => Some(Box::new(c02::C02)),
         "C03" => Some(Box::new(c03::C03)),
+        "C04" => Some(Box::new(c04::C04::new())),
         _ => None,
     }
 }
@@ -64,6 +66,12 @@ pub fn short_loc(loc: &str) -> String {
 
 fn main() {
     let args: Vec<String> = std::env::args().collect();
+    if args.len() >= 2 && args[1] == "scale-families" {
+        for f in c04::SCALE_FAMILIES {
+            println!("{f}");
+        }
+        return;
+    }
     if args.len() < 3 {
         eprintln!("usage: vcheck <Cxx> worker|replay|list ...");
         std::process::exit(2);
@@ -77,6 +85,27 @@ fn main() {
             }
         }
         println!("{}", set.len());
+        return;
+    }
+    if args[1] == "scale" {
+        // vcheck scale <family> <n>: run every entry point once on one scaling-family document
+        // (measured from outside by callgrind); prints the input length
+        let n: usize = args[3].parse().unwrap();
+        let doc = c04::scale_doc(&args[2], n).expect("known family");
+        ctx::install_panic_hook();
+        let mut ctx = Ctx::new(Tier::Quick, 0);
+        let mut c = c04::C04::new();
+        c.exercise(&mut ctx, &doc);
+        println!("len={} violations={}", doc.len(), ctx.violations.len());
+        for v in &ctx.violations {
+            println!("SCALE-VIOLATION {} {}", v.sig, v.detail);
+        }
+        return;
+    }
+    if args[1] == "scale-families" {
+        for f in c04::SCALE_FAMILIES {
+            println!("{f}");
+        }
         return;
     }
     let id = args[1].clone();
@@ -106,6 +135,7 @@ fn main() {
             let (si, sn): (u64, u64) = (si.parse().unwrap(), sn.parse().unwrap());
             let out = std::path::PathBuf::from(arg_after(&args, "--out").expect("--out DIR"));
             let only = arg_after(&args, "--only");
+            let frac: u64 = arg_after(&args, "--frac").and_then(|s| s.parse().ok()).unwrap_or(1);
             std::fs::create_dir_all(&out).unwrap();
             let progress = std::fs::File::create(out.join(format!("shard-{si}.progress"))).unwrap();
             let wls = check.workloads(tier, seed);
@@ -116,11 +146,14 @@ fn main() {
                     }
                 }
                 let mut idx = si;
+                // sub-sampling (slow builds): every `frac`-th case of this shard, never fewer than all
+                // cases of small workloads
+                let step = if n < 5000 { sn } else { sn * frac };
                 while idx < n {
                     let line = format!("{wl} {idx}\n{:40}", "");
                     let _ = progress.write_at(&line.as_bytes()[..line.len().min(64)], 0);
                     run_case(check.as_mut(), &mut ctx, &wl, idx);
-                    idx += sn;
+                    idx += step;
                 }
             }
             let _ = progress.write_at(format!("done 0\n{:40}", "").as_bytes(), 0);
